@@ -42,3 +42,10 @@ TEXT["C19"] = {
     "note": "trusts the harness's compact-size arithmetic",
     "technique": "reference-model monitor (budget calculator) with boundary enumeration",
 }
+TEXT["C05"] = {
+    "level": ("Tens of thousands (thorough: millions) of generated (program, input) pairs over arbitrary source/target types, each executed on the real Bit Machine and compared "
+              "with an independent big-step evaluator, including placement variants that shift and dirty the frames; decides the property on each explored pair."),
+    "design_ref": "DESIGN.md section 5, C05",
+    "note": "trusts the harness evaluator, inference and jet models (harness/src/{eval,ast,mjets}.rs)",
+    "technique": "reference-model monitor (big-step evaluator) + frame-bounds hook over type-directed generated programs",
+}
